@@ -390,8 +390,10 @@ class Arr:
         a = Arr(self.shape, self.legs, self.dt, None, self.tags, 'copy', parents=(self,))
         return a
 
-    def astype(self, t):
-        return Arr(self.shape, self.legs, dtype_of(t), None, self.tags, 'astype', parents=(self,))
+    def astype(self, t, copy=True, **k):
+        if k:
+            raise AnalysisError(f'ndarray.astype with {sorted(k)} has no model')
+        return Arr(self.shape, self.legs, dtype_of(t), None if copy or dtype_of(t) != self.dt else self.buf, self.tags, 'astype', parents=(self,))
 
     def conj(self):
         t = {}
@@ -934,6 +936,23 @@ def outer_gather(a, idx):
     return Arr([a.shape[k] for k in order], [a.legs[k] for k in order], a.dt, None, {}, 'outer-gather')
 
 
+def mask_count(x, n):
+    """the number of True entries of a boolean mask: one unknown per mask, however often it is applied -- and the same unknown for a mask that is
+    re-computed from the same operands ( a[s > t] = f(b[s > t]) )"""
+    memo = CTX.__dict__.setdefault('mask_counts', {})
+    ex = x.tags.get('expr')
+    key = id(x)
+    if ex and len(ex) == 2 and isinstance(ex[1], tuple):
+        key = ('expr', ex[0]) + tuple(id(o) if isinstance(o, Arr) else repr(o) for o in ex[1])
+    if key not in memo:
+        memo[key] = CTX.atoms.new('k', free=True, upper=[n], origin='boolean mask')
+        CTX.keep.append(x)
+        # a comparison used as a mask is a data-dependent selection, exactly like np.where(comparison): same event, so that the rules on how singular
+        # values may be cut (relative to the largest one) see it
+        CTX.event('where', cond=x, index=None, count=memo[key], env={})
+    return memo[key]
+
+
 def pointwise_advanced(shape, legs, adv_pos, adv_axes):
     """NumPy semantics of several advanced indices: the index arrays are broadcast against each other and produce ONE axis (point-wise selection); that axis
     replaces the first index array if all advanced indices (index arrays and integers) are adjacent, otherwise it comes first"""
@@ -1007,12 +1026,7 @@ def getitem(a, idx):
                 sel.append(('range', start, stop))
         elif isinstance(x, (Arr,)) and x.ndim >= 1:
             if x.dt == 'bool':
-                # the number of True entries of one mask object is one unknown, however often the mask is applied
-                memo = CTX.__dict__.setdefault('mask_counts', {})
-                if id(x) not in memo:
-                    memo[id(x)] = CTX.atoms.new('k', free=True, upper=[n], origin='boolean mask')
-                    CTX.keep.append(x)
-                k = memo[id(x)]
+                k = mask_count(x, n)
             else:
                 k = x.shape[0] if x.ndim == 1 else None
                 if k is None:
@@ -1185,7 +1199,7 @@ def setitem(a, idx, v):
             if ok is None:
                 CTX.event('store-bounds-unproved', target=a, axis=ax, lo=start, hi=stop, n=n, detail=f'slice {start}:{stop} on axis {ax} of length {n} is not provably in bounds')
         elif (isinstance(x, Arr) and x.ndim >= 1) or isinstance(x, list):
-            k = x.shape[0] if isinstance(x, Arr) else len(x)
+            k = (mask_count(x, n) if x.dt == 'bool' else x.shape[0]) if isinstance(x, Arr) else len(x)
             sel_shape.append(k); sel.append(('idx', id(x)))
         else:
             i = norm_index(n, x) if isinstance(x, (int, Size)) else x
